@@ -15,7 +15,7 @@
 EXTENDS Remap
 TagsOf(pc) == Range(pc.tags)
 GroupTags(g) == UNION {TagsOf(g.pieces[i]) : i \in 1..Len(g.pieces)}
-ChrNameTags == {"X", "W", "B1", "Z", "I", "I_II", "2RL"}
+ChrNameTags == {"X", "W", "B1", "Z", "I", "I_II", "2RL", "U"}
 \* ---- find phase with labelling; state adds namer + per-or labels ----
 \* or label: [name, tag, rank, orig]   names are tuples: <<"P", g>> painted scaffold, <<"U", src>>, <<"C", tag>>, <<"H", n>>, <<"UL", base, n>>
 FindN(input, map, E) ==
